@@ -74,6 +74,8 @@ type FuncContract struct {
 	AssumedEnsures []*Clause      // postconditions callers may use but the body check does not establish (listed as assumptions)
 	Splits         []*SplitSpec   // case splits applied to every proof obligation of the function
 	RecvType       types.Type     // set on a resolved "sameas" contract: the implementation's receiver type
+	Threads        *Clause        // `threads tx`: every store handle this function passes on is its parameter tx (when that is not nil)
+	ThreadsParam   string
 	OnlyCallers    []string       // calledonlyby: the only functions (name substrings) that may call this one
 	ConstTexts     []string       // string constants that must occur verbatim in the function (configuration the assumed semantics rest on)
 	SameAs         string         // interface method contract = the contract of this implementation ("pkgpath.(*T).M"), assumed to be the dynamic callee
@@ -252,7 +254,7 @@ func parseParams(s string) []SpecParam {
 	return out
 }
 
-var clauseKw = map[string]bool{"behavior": true, "ensuresassumed": true, "ensureslocal": true, "split": true, "definitional": true, "lazyspecs": true, "sameas": true, "consttext": true, "calledonlyby": true, "nilcalls": true, "set": true, "choose": true, "sqltext": true, "except": true, "allowcalls": true, "nocalls": true, "ensureserror": true, "ensureszero": true, "requires": true, "ensures": true, "modifies": true, "loop": true, "inline": true,
+var clauseKw = map[string]bool{"behavior": true, "ensuresassumed": true, "ensureslocal": true, "split": true, "definitional": true, "lazyspecs": true, "sameas": true, "consttext": true, "calledonlyby": true, "threads": true, "nilcalls": true, "set": true, "choose": true, "sqltext": true, "except": true, "allowcalls": true, "nocalls": true, "ensureserror": true, "ensureszero": true, "requires": true, "ensures": true, "modifies": true, "loop": true, "inline": true,
 	"trusted": true, "pure": true, "opaque": true, "nonnil": true, "props": true, "maypanic": true, "params": true,
 	"assert": true, "call": true}
 
@@ -750,6 +752,14 @@ func (cs *ContractSet) ParseFile(path, pkgPath string) error {
 		case "nilcalls":
 			if cur != nil {
 				cur.NilCalls = true
+			}
+		case "threads":
+			if cur != nil {
+				name := strings.TrimSpace(it.rest)
+				if cl := mkClause(item{it.n, "", name + " != nil ==> argH == " + name}, nil); cl != nil {
+					cl.Text = "threads " + name + ": a store handle passed on is " + name + " itself (when that is not nil)"
+					cur.Threads, cur.ThreadsParam = cl, name
+				}
 			}
 		case "calledonlyby":
 			if cur != nil {
